@@ -51,6 +51,29 @@ Example C18_restart_nonvacuous :
 Proof. exact restart_nonvacuous. Qed.
 Print Assumptions C18_restart_nonvacuous.
 
+(* FULL STRENGTH, no recorded class: whatever the first input was (missing file, YAML error, ANY document, however
+   damaged), the state the constructor returned is a fixed point of save -> print -> parse -> construct: same
+   subnets, same bindings, under any capture state. *)
+Theorem C18_restart_fixpoint :
+  forall (text : Type) (print : doc -> text) (parse : text -> option doc),
+  yaml_roundtrip text print parse ->
+  forall c cap0 i0 s cap,
+    home_masked c ->
+    new c cap0 i0 = Ok s ->
+    exists s', new c cap (input_of_text text parse (print (save (d_n1 s) (d_n2 s) (d_table s)))) = Ok s'
+               /\ d_n1 s' = d_n1 s /\ d_n2 s' = d_n2 s
+               /\ bindings (d_table s') = bindings (d_table s).
+Proof. exact restart_fixpoint. Qed.
+Print Assumptions C18_restart_fixpoint.
+
+(* every constructed table has distinct keys, only Allocated leases, and is outside the recorded restart class *)
+Theorem C18_new_table_wf : forall c cap i s, new c cap i = Ok s ->
+  NoDup (map l_cid (d_table s))
+  /\ (forall l, In l (d_table s) -> allocated l = true)
+  /\ known_C18_restart (d_n1 s) (d_table s) = false.
+Proof. exact new_table_wf. Qed.
+Print Assumptions C18_new_table_wf.
+
 (* The validation loop gives back exactly the saved records (file order; subnet chosen from the capture state). *)
 Theorem C18_load_loop_roundtrip : forall cap s1 s2 rs,
   (forall r, In r rs -> (r_state r =? 2)%Z = true /\ rec_ok s1 r = true) ->
